@@ -45,6 +45,8 @@ Multigets == [allprop : {TRUE}, props : {<< >>}, hrefs : UNION {[1..n -> Hrefs] 
              \cup [allprop : {FALSE}, props : {<< >>, <<"n1">>, <<"n2", "n1">>}, hrefs : {<<"h2">>, <<"h3", "h1">>}]
              \* documents that are large in size only (beyond 64 KiB): 3 000 hrefs; a match text of 100 000 characters (token "tbig")
              \cup {[allprop |-> TRUE, props |-> << >>, hrefs |-> [i \in 1..3000 |-> IF i % 3 = 0 THEN "h3" ELSE IF i % 3 = 1 THEN "h1" ELSE "h2"]]}
+\* limits at integer boundaries
+LimitQs == {[allprop |-> TRUE, props |-> << >>, test |-> "", filters |-> << >>, limit |-> l] : l \in {1, 2, 2147483646, 2147483647}}   \* (TLC integers are 32-bit)
 BigTextQ == [allprop |-> TRUE, props |-> << >>, test |-> "allof", limit |-> 0,
              filters |-> <<[name |-> "n1", test |-> "", isnd |-> FALSE, tms |-> <<[text |-> "tbig", neg |-> TRUE, mt |-> "equals"]>>, params |-> << >>]>>]
 
@@ -73,7 +75,7 @@ InvalidDocs ==
                                                 El(CARD, "limit", << >>, <<El(CARD, "nresults", << >>, << >>)>>)>>)})
 
 \* ---------- F0: the RFC grammar carries everything the API can say; reader and writer agree
-ASSUME \A q \in Queries \cup {BigTextQ} : QueryShape(QueryDoc(q)) /\ QueryOrder(QueryDoc(q)) /\ Denotes(QueryDoc(q)) = Norm(q)
+ASSUME \A q \in Queries \cup {BigTextQ} \cup LimitQs : QueryShape(QueryDoc(q)) /\ QueryOrder(QueryDoc(q)) /\ Denotes(QueryDoc(q)) = Norm(q)
 ASSUME \A m \in Multigets : MultigetShape(MultigetDoc(m)) /\ MultigetDenotes(MultigetDoc(m)) = m
 ASSUME AltQueries # {} /\ \A a \in AltQueries : QueryShape(a.doc) /\ Denotes(a.doc) = Norm(a.q)
 HasBogus(q) == \/ q.test = "bogus"
@@ -84,7 +86,7 @@ HasBogus(q) == \/ q.test = "bogus"
 ASSUME \A q \in Queries : InvalidEnums(Norm(q)) = HasBogus(q)
 
 Out == IOEnv.OUT
-ASSUME ndJsonSerialize(Out \o "/queries.ndjson", SetToSeq(AltQueries) \o SetToSeq({[q |-> q, doc |-> QueryDoc(q), srvonly |-> FALSE] : q \in Queries \cup {BigTextQ}}))
+ASSUME ndJsonSerialize(Out \o "/queries.ndjson", SetToSeq(AltQueries) \o SetToSeq({[q |-> q, doc |-> QueryDoc(q), srvonly |-> FALSE] : q \in Queries \cup {BigTextQ} \cup LimitQs}))
 ASSUME ndJsonSerialize(Out \o "/multigets.ndjson", SetToSeq({[m |-> m, doc |-> MultigetDoc(m)] : m \in Multigets}))
 ASSUME ndJsonSerialize(Out \o "/invalid.ndjson", SetToSeq(InvalidDocs))
 ASSUME PrintT(<<"COUNTS", Cardinality(Queries) + Cardinality(AltQueries), Cardinality(Multigets), Cardinality(InvalidDocs)>>)
